@@ -51,7 +51,13 @@ class Builder(Harness):
                 if tier == "quick":
                     out.append({"tasks": [a, b], "edges": 1, "maxpos": 0, "nokw": True})
                     if a <= b:
-                        out.append({"tasks": [a, b], "edges": 0, "maxpos": 2 if a == b else 1, "nvalues": 3})
+                        base = {"tasks": [a, b], "edges": 0, "maxpos": 2 if a == b else 1, "nvalues": 3}
+                        if a == b:
+                            from vf.engine_xh import split_prefixes
+
+                            out += [{**base, "_prefix": p} for p in split_prefixes(self.body, base, 24)]
+                        else:
+                            out.append(base)
                 else:
                     out.append({"tasks": [a, b], "edges": 2})
                     for c in (1, 2, 6):
